@@ -26,7 +26,7 @@ RULE = ('Hypothesis argument strings (printable ASCII, TAB, LF where the positio
         'metacharacters: quotes, $, $$, ${x}, `, ;, &, |, *, ?, [], {}, ~, !, #, %, <, >, @, backslashes, leading/trailing blanks, empty string) in '
         'every position of one generated project: custom_target plain / capture / feed / env / newline (pickled wrapper), `&&` separator, run_target, '
         'generator arguments, test() args and env, per-target c_args (incl. -D with backslashes) and link_args, add_project_arguments, '
-        'add_global_arguments; with and without response files (MESON_RSP_THRESHOLD=0). Actual argv = what a dumper program records when the '
+        'add_global_arguments, project/global compile and link arguments given to c and cpp in one call and then per language (each step of each language receives exactly its own); with and without response files (MESON_RSP_THRESHOLD=0). Actual argv = what a dumper program records when the '
         'build.ninja statement is expanded by harness/refninja.py and run by /bin/sh, or by real `meson test`. non-trivial = the position holds >=1 '
         'argument with a shell/ninja/rsp metacharacter; distinct by (position, mode, arguments).')
 ASSUMPTIONS = [
@@ -153,6 +153,11 @@ def cases(draw: T.Any) -> dict:
         'bl': [draw(args_list(lo=1, hi=2)), draw(args_list(lo=1, hi=2)), draw(args_list(lo=1, hi=2))],
         'twotok': draw(st.lists(st.sampled_from(['x', 'A_1', 'v=1', 'inc dir', 'q']), min_size=2, max_size=4)),
     }
+    if draw(st.booleans()):
+        # a second language: arguments given to several languages in one call, then more for one language only
+        c['ml'] = {'both': draw(args_list(lo=1, hi=2)), 'cpp': draw(args_list(lo=1, hi=2)), 'c': draw(args_list(lo=1, hi=2)),
+                   'lboth': draw(args_list(lo=1, hi=2)), 'lcpp': draw(args_list(lo=1, hi=2)), 'lc': draw(args_list(lo=1, hi=2)),
+                   'glob': draw(st.booleans())}
     return c
 
 
@@ -177,6 +182,12 @@ def bl_args(c: dict) -> T.Tuple[T.List[str], T.List[str], T.List[str]]:
             [f'-fxbh{i}={a}' for i, a in enumerate(sha)])
 
 
+def ml_args(c: dict) -> T.Dict[str, T.List[str]]:
+    """per-language project (or global) compile/link arguments of the two-language part; unique prefixes per list"""
+    ml = c['ml']
+    return {k: [f'-fxm{k}{i}={a}' for i, a in enumerate(ml[k])] for k in ('both', 'cpp', 'c', 'lboth', 'lcpp', 'lc')}
+
+
 def twotok_pairs(c: dict) -> T.Dict[str, T.List[T.Tuple[str, str]]]:
     """the two-token spelling of an option (-D NAME, -U NAME, -isystem DIR), used more than once per target and at two
     levels: option and operand must stay together, in order, every time"""
@@ -194,10 +205,21 @@ def twin_lists(c: dict) -> T.Tuple[T.List[str], T.List[str]]:
 def build_files(c: dict, logdir: str) -> T.Dict[str, T.Union[str, bytes]]:
     ca = compile_arg_lists(c)
     L = mq(logdir)
-    lines = ["project('argv', 'c', default_options: ['warning_level=0'])",
+    lines = ["project('argv', 'c', default_options: ['warning_level=0'])" if not c.get('ml') else
+             "project('argv', 'c', 'cpp', default_options: ['warning_level=0'])",
              "dump = find_program('dump.py')",
              f"add_global_arguments({mlist(ca['glob_args'])}, language: 'c')",
              f"add_project_arguments({mlist(ca['proj_args'] + [t for pr in twotok_pairs(c)['proj_args'] for t in pr])}, language: 'c')"]
+    if c.get('ml'):
+        m = ml_args(c)
+        fn = 'add_global' if c['ml']['glob'] else 'add_project'
+        lines += [f"{fn}_arguments({mlist(m['both'])}, language: ['c', 'cpp'])",
+                  f"{fn}_arguments({mlist(m['cpp'])}, language: 'cpp')",
+                  f"{fn}_arguments({mlist(m['c'])}, language: 'c')",
+                  f"{fn}_link_arguments({mlist(m['lboth'])}, language: ['cpp', 'c'])",
+                  f"{fn}_link_arguments({mlist(m['lc'])}, language: 'c')",
+                  f"{fn}_link_arguments({mlist(m['lcpp'])}, language: 'cpp')",
+                  "executable('epp', 'mainpp.cpp')"]
     plain = f"[dump, '--log', {L}, '--id', 'ct_plain', '--touch', '@OUTPUT@', '--', {mlist(c['ct_plain'])}"
     if c['use_andand']:
         plain += f", '&&', dump, '--log', {L}, '--id', 'ct_plain2', '--', {mlist(c['ct_plain2'])}"
@@ -235,7 +257,7 @@ def build_files(c: dict, logdir: str) -> T.Dict[str, T.Union[str, bytes]]:
         # and under `--wrapper`, where each must still receive exactly its own arguments
         lines.append(f"test('t2', dump, args: ['--log', {L}, '--id', 'test2', '--', {mlist(c['test2'])}])")
         lines.append("add_test_setup('wrapped', exe_wrapper: [find_program('env'), 'VERIF_EW=in setup'])")
-    return {'meson.build': '\n'.join(lines) + '\n', 'dump.py': DUMP_PY, 'main.c': 'int main(void) { return 0; }\n', 'gin.txt': 'x\n',
+    return {'meson.build': '\n'.join(lines) + '\n', 'dump.py': DUMP_PY, 'main.c': 'int main(void) { return 0; }\n', 'mainpp.cpp': 'int main() { return 0; }\n', 'gin.txt': 'x\n',
             'blsrc.c': 'int bl(void) { return 0; }\n',
             'feed.bin': b'feed\r\n\x00\xff line2\n'}
 
@@ -470,8 +492,8 @@ def check_case(c: dict, workdir: str, ev: T.Optional[Evidence], confirm_sub: boo
 
         def subst(ident: str) -> T.Callable[[str], str]:
             def fn(cmd: str) -> str:
-                assert cmd.startswith('cc '), cmd[:40]
-                return f'{refninja.shell_escape(PY)} {refninja.shell_escape(dump)} --log {refninja.shell_escape(logdir)} --id {ident} -- ' + cmd[3:]
+                assert cmd.startswith(('cc ', 'c++ ')), cmd[:40]
+                return f'{refninja.shell_escape(PY)} {refninja.shell_escape(dump)} --log {refninja.shell_escape(logdir)} --id {ident} -- ' + cmd.split(' ', 1)[1]
             return fn
         for ident, out, groups in (
                 ('compile', 'e.p/main.c.o', [('global', ca['glob_args'], False), ('project', ca['proj_args'], False), ('target', ca['c_args'], True)]),
@@ -504,6 +526,31 @@ def check_case(c: dict, workdir: str, ev: T.Optional[Evidence], confirm_sub: boo
                         last = idx[0]
                     if pairs:
                         pos_results.append((f'compile/{gname}-two-token', [t for pr in pairs for t in pr]))
+        if c.get('ml'):
+            mm = ml_args(c)
+            scope = 'global' if c['ml']['glob'] else 'project'
+            for ident, out, mine, foreign in (
+                    ('ml_c_compile', 'e.p/main.c.o', mm['both'] + mm['c'], mm['cpp'] + mm['lboth'] + mm['lc'] + mm['lcpp']),
+                    ('ml_cpp_compile', 'epp.p/mainpp.cpp.o', mm['both'] + mm['cpp'], mm['c'] + ca['glob_args'] + ca['proj_args'] + mm['lboth'] + mm['lc'] + mm['lcpp']),
+                    ('ml_c_link', 'e', mm['lboth'] + mm['lc'], mm['lcpp'] + mm['both'] + mm['c'] + mm['cpp']),
+                    ('ml_cpp_link', 'epp', mm['lboth'] + mm['lcpp'], mm['lc'] + mm['both'] + mm['c'] + mm['cpp'])):
+                rr, err = run_out(out, subst(ident))
+                if rr is None:
+                    return Failure('per-language/no-statement', c, err)
+                if rr.rc != 0:
+                    return Failure('per-language/command-fails', c, f'{ident}: expanded command failed (exit {rr.rc}):\n$ {rr.command}\n{rr.output[-800:]}')
+                recs = read_records(logdir, ident)
+                if len(recs) != 1:
+                    return Failure(f'per-language/ran-{len(recs)}-times', c, f'{ident}: dumper ran {len(recs)} times')
+                got = expand_rsp(recs[0])
+                why = in_order_once(mine, got)
+                leaked = [a for a in foreign if a in got]
+                if why or leaked:
+                    return Failure(f'per-language/{ident}-args-differ', c,
+                                   f'{scope} arguments given per language (one call for c and cpp together, then one call per language): {ident} must '
+                                   f'receive exactly the arguments of its own language, once each, in order; {why or ""} arguments of another language / '
+                                   f'of the other step received: {leaked!r}\n expected: {mine!r}\n received: {got!r}')
+            pos_results.append((f'per-language/{scope}', mm['both'] + mm['c'] + mm['cpp'] + mm['lboth'] + mm['lc'] + mm['lcpp']))
         if c.get('bl'):
             com, sta, sha = bl_args(c)
             for half, out, mine, other in (('static', 'libbl.a.p/blsrc.c.o', sta, sha), ('shared', 'libbl.so.p/blsrc.c.o', sha, sta)):
